@@ -1,7 +1,9 @@
 #!/usr/bin/env python3
 """Mutant self-test: apply each patch under mutants/<prop>/ (or seeded/<id>/patch.diff given
 with --seeded) to /repo, run the property's check, expect exit 1, and restore /repo.
-Usage: tools/selftest.py C01 [name-substring] [--tier quick]"""
+Usage: tools/selftest.py C01 [name-substring] [--tier quick] [--tree DIR]
+With --tree DIR the patches are applied to the scratch worktree DIR (outside /repo and /verif) and the check is pointed at it
+through VERIF_REPO, so that /repo is not touched (use while another run needs /repo)."""
 import glob, os, subprocess, sys, time
 HERE = os.path.dirname(os.path.dirname(os.path.abspath(__file__)))
 args = [a for a in sys.argv[1:] if not a.startswith('--')]
@@ -9,24 +11,28 @@ tier = 'quick'
 if '--tier' in sys.argv:
     tier = sys.argv[sys.argv.index('--tier') + 1]
     args = [a for a in args if a != tier]
+tree = '/repo'
+if '--tree' in sys.argv:
+    tree = sys.argv[sys.argv.index('--tree') + 1]
+    args = [a for a in args if a != tree]
 prop = args[0]
 sub = args[1] if len(args) > 1 else ''
 patches = sorted(glob.glob(os.path.join(HERE, 'mutants', prop, '*.patch')))
 patches += sorted(p for p in glob.glob(os.path.join(HERE, 'seeded', '*', 'patch.diff'))
                   if prop in open(os.path.join(os.path.dirname(p), 'meta.json')).read())
 ok = True
-assert subprocess.run(['git', '-C', '/repo', 'status', '--porcelain'], capture_output=True, text=True).stdout.strip() == '', '/repo dirty'
+assert subprocess.run(['git', '-C', tree, 'status', '--porcelain'], capture_output=True, text=True).stdout.strip() == '', tree + ' dirty'
 for p in patches:
     if sub not in p:
         continue
     t0 = time.time()
-    r = subprocess.run(['git', '-C', '/repo', 'apply', p])
+    r = subprocess.run(['git', '-C', tree, 'apply', p])
     if r.returncode:
         print('PATCH-FAILED', p); ok = False; continue
     try:
-        r = subprocess.run([os.path.join(HERE, 'check'), prop, '--tier', tier, '--no-evidence'], capture_output=True, text=True)
+        r = subprocess.run([os.path.join(HERE, 'check'), prop, '--tier', tier, '--no-evidence'], capture_output=True, text=True, env={**os.environ, 'VERIF_REPO': tree})
     finally:
-        subprocess.run(['git', '-C', '/repo', 'checkout', '--', '.'])
+        subprocess.run(['git', '-C', tree, 'checkout', '--', '.'])
     viol = [l for l in r.stdout.splitlines() if l.startswith('VIOLATION')]
     status = 'CAUGHT' if r.returncode == 1 and viol else f'MISSED(exit {r.returncode})'
     if status != 'CAUGHT':
